@@ -15,6 +15,8 @@ import (
 	"context"
 	"errors"
 	"fmt"
+	"runtime"
+	"runtime/debug"
 	"sort"
 	"strings"
 	"testing"
@@ -535,6 +537,13 @@ func TestVerifC31(t *testing.T) {
 	r := ev.Start(t, "C31")
 	defer r.Finish()
 	bound := ev.Pick(r, 2, 3)
+	// Engine workaround (reported to the coordinator): vsched remembers closed channels by
+	// address; if the collector frees a closed channel (a finished plan's context) in the
+	// middle of an execution, a new channel can reuse the address and look closed, and the
+	// real receive then blocks the process. No collection may therefore happen inside an
+	// execution: automatic GC is off and runs explicitly between executions.
+	defer debug.SetGCPercent(debug.SetGCPercent(-1))
+	judged := 0
 	var execs int64
 	outcomes := 0
 	overlap := false
@@ -547,6 +556,9 @@ func TestVerifC31(t *testing.T) {
 			Note:   "delay bounding; atomics are not scheduling points (see level_note)",
 			Body:   c31Body(scn),
 			Check: func(x *vsched.Exec) error {
+				if judged++; judged%100 == 0 {
+					runtime.GC()
+				}
 				if w, _ := x.Data["w"].(*c31World); w != nil && c31Overlaps(w) {
 					overlap = true
 				}
